@@ -262,7 +262,7 @@ fn reduced_hint_exhaustive(ctx: &Ctx, acc: &mut Acc) {
                         (Ok(h), Some(wh)) => {
                             accepted += 1;
                             let same = (0..K).all(|i| (0..256).all(|j| i64::from(h[i][j]) == wh[i][j]));
-                            let mut y2 = vec![0u8; len];
+                            let mut y2 = vec![0xFFu8; len];
                             hk::hint_bit_pack::<false, K>(omega as i32, &h, &mut y2);
                             if (!same || y2 != y) && fail.is_none() {
                                 fail = Some((y.clone(), format!("values_equal={same} reencode_identical={}", y2 == y)));
@@ -334,8 +334,12 @@ fn bit_codecs(ctx: &Ctx, acc: &mut Acc) {
         let c = r::bitlen(a + b);
         let nbytes = 32 * c;
         let name = format!("({a},{b})");
+        let fill_ctr = std::sync::atomic::AtomicUsize::new(0);
         let pack = |w: &Poly| -> Vec<u8> {
-            let mut out = vec![0u8; nbytes];
+            // the output buffer arrives pre-filled (all-ones, a pattern, zeros in turn): the encoding must be
+            // a function of the coefficients only, whatever the destination held before
+            let fill = [0xFFu8, 0xA5, 0x00, 0x5A][fill_ctr.fetch_add(1, std::sync::atomic::Ordering::Relaxed) % 4];
+            let mut out = vec![fill; nbytes];
             if simple { hk::simple_bit_pack(&to_i32(w), b as i32, &mut out) } else { hk::bit_pack(&to_i32(w), a as i32, b as i32, &mut out) }
             out
         };
